@@ -686,7 +686,8 @@ static inline bool LPFhasKeyword(char*& pos, const char* keyword)
          i++;
 
          // Here we assumed that we have a ']' for the '['.
-         while((tolower(pos[k]) == keyword[i]) && (pos[k] != '\0'))
+         // (a ']' in the input must not be matched against the closing bracket of the keyword pattern)
+         while((keyword[i] != ']') && (tolower(pos[k]) == keyword[i]) && (pos[k] != '\0'))
          {
             k++;
             i++;
